@@ -29,25 +29,34 @@ Section Exec.
   Definition mode_tag (m : mode_plan) : option bytes := match m with MGCM _ t _ => t | _ => None end.
 
   Definition run_sym_encrypt (sp : sym_plan) (msg : bytes) : run_res enc_out :=
-    if lib_sym_ok false sp (zlen msg) then
+    match lib_sym_stage false sp (zlen msg) with
+    | LErr e => RErr e
+    | LCrash => RCrash
+    | LOk =>
       let data := match p_pad sp with PScheme s => pad s (p_block sp) msg | _ => msg end in
       let r := E (p_alg sp) (p_key sp) (mode_val (p_mode sp)) (mode_iv (p_mode sp)) (p_aad sp) data in
       ROk (mkOut (fst r) (iv_returned (p_mode sp))
                  (match p_mode sp with MGCM _ _ mt => Some (firstn (Z.to_nat mt) (snd r)) | _ => None end))
-    else RCrash.
+    end.
 
   Definition run_sym_decrypt (sp : sym_plan) (ct : bytes) : run_res bytes :=
-    if lib_sym_ok true sp (zlen ct) then
+    match lib_sym_stage true sp (zlen ct) with
+    | LErr e => RErr e
+    | LCrash => RCrash
+    | LOk =>
       match Dp (p_alg sp) (p_key sp) (mode_val (p_mode sp)) (mode_iv (p_mode sp)) (p_aad sp) (mode_tag (p_mode sp)) ct with
-      | None => RCrash                       (* InvalidTag, bad length *)
+      | None => RErr CryptographicFailure     (* InvalidTag: 'The decryption process failed' *)
       | Some d =>
         match p_pad sp with
         | PInvalid => RErr InvalidField
         | PNone => ROk d
-        | PScheme s => match unpad s (p_block sp) d with Some m => ROk m | None => RCrash end
+        | PScheme s => match unpad s (p_block sp) d with
+                       | Some m => ROk m
+                       | None => RErr CryptographicFailure   (* 'The padding could not be removed' *)
+                       end
         end
       end
-    else RCrash.
+    end.
 
   (* _encrypt_symmetric / _decrypt_symmetric end to end *)
   Definition do_encrypt (a : Z) (key : bytes) (mode pad : option Z) (iv aad : option bytes) (taglen : option Z)
